@@ -191,14 +191,17 @@ func VT_C12_ConcurrentFirstGet() {
 	var wg sync.WaitGroup
 	res := make([]any, 2)
 	errs := make([]error, 2)
+	start := make(chan struct{}) // both Gets are released together (natively this aligns the race window)
 	for i := 0; i < 2; i++ {
 		i := i
 		wg.Add(1)
 		go func() {
 			defer wg.Done()
+			<-start
 			res[i], errs[i] = r.Get(n)
 		}()
 	}
+	close(start)
 	wg.Wait()
 	vt.Assert(vt.And(errs[0] == nil, errs[1] == nil), "both-gets-succeed")
 	vt.Assert(res[0] == res[1], "both-gets-return-the-same-client")
